@@ -223,7 +223,7 @@ func (s *State) runFrom(b *ssa.BasicBlock, i int) {
 				res = append(res, s.valOf(r))
 			}
 			fr := s.frames[len(s.frames)-1]
-			s.frames = s.frames[:len(s.frames)-1:len(s.frames)-1]
+			s.frames = s.frames[: len(s.frames)-1 : len(s.frames)-1]
 			s.fnStack = s.fnStack[:len(s.fnStack)-1]
 			if len(s.frames) > 0 {
 				s.frees = s.frames[len(s.frames)-1].frees
@@ -513,6 +513,19 @@ func (s *State) applyContract(site ssa.Instruction, key string, con *Contract, c
 	s.assume(app("<=", s.alloc, na))
 	s.alloc = na
 	res := s.freshResults(sig, "r_"+sanitize(short))
+	// vacuity probe: the state must stay satisfiable when the callee's postcondition is assumed (first paths
+	// that reach each call site only)
+	probe := -1
+	if site != nil && len(con.Ensures) > 0 {
+		if c.siteProbes == nil {
+			c.siteProbes = map[ssa.Instruction]int{}
+		}
+		if c.siteProbes[site] < 2 {
+			probe = c.ordinal(site, "reach:"+key)*10 + c.siteProbes[site]
+			c.siteProbes[site]++
+			s.cover("reach-pre:"+key, probe, "state before assuming the postcondition of "+key+" is satisfiable")
+		}
+	}
 	if con.Deterministic {
 		// the results are a function of the arguments (the receiver is an immutable object)
 		var as []string
@@ -530,6 +543,39 @@ func (s *State) applyContract(site ssa.Instruction, key string, con *Contract, c
 		c.assumed["results of "+key+" are a function of its receiver and arguments (receivers are immutable objects)"] = true
 	}
 	bindResultVars(vars, res, callee, sig)
+	// the activation ghosts (exec_*, net_*: what THIS activation executed, dialed, wrote) mentioned in the callee's
+	// postcondition speak about the callee's activation: they are evaluated on fresh values, and the caller's own
+	// ghosts are untouched by the call
+	savedGhost := map[string]Val{}
+	mentions := func(prefix string) bool {
+		for _, en := range con.Ensures {
+			if strings.Contains(en.Src, prefix) {
+				return true
+			}
+		}
+		return false
+	}
+	mExec, mNet := mentions("exec_"), mentions("net_")
+	for gk, gv := range s.ghost {
+		if (mExec && strings.HasPrefix(gk, "exec_")) || (mNet && strings.HasPrefix(gk, "net_")) {
+			savedGhost[gk] = gv
+		}
+	}
+	for gk, gv := range savedGhost {
+		if gv.T != nil {
+			s.ghost[gk] = s.freshVal(gv.T, "callee_"+gk)
+		}
+	}
+	restoreGhost := func() {
+		for gk, gv := range savedGhost {
+			s.ghost[gk] = gv
+		}
+	}
+	// remember the results of the latest call of each contracted callee (spec: called(key), lastresult(key, i))
+	for i, r := range res {
+		s.ghost[fmt.Sprintf("lastres|%s|%d", key, i)] = r
+	}
+	s.ghost["lastres|"+key] = Val{T: boolT, S: "true"}
 	for _, en := range con.Ensures {
 		x := &EvalCtx{s: s, old: old, vars: vars, pkg: pkg, lenient: true}
 		v := x.eval(en.Expr)
@@ -554,6 +600,10 @@ func (s *State) applyContract(site ssa.Instruction, key string, con *Contract, c
 		c.assumed["trusted contract of "+key+": "+con.Trusted] = true
 	}
 	c.used[key] = true
+	restoreGhost()
+	if probe >= 0 {
+		s.cover("reach-post:"+key, probe, "state after assuming the postcondition of "+key+" is satisfiable")
+	}
 	k(s, res)
 }
 
